@@ -151,34 +151,74 @@ func c08RunOrBans(c *mon.Ctx) {
 		{"email", "a@b.cc"}, {"uri", "http://a.b/c"}, {"uuid", "550e8400-e29b-41d4-a716-446655440000"}, {"date", "2021-01-02"}, {"datetime", "2021-01-02T03:04:05Z"},
 	}
 	type cs struct {
-		ex   *model.Node
-		set  []*model.Rule
-		want string
-		why  string
+		ex    *model.Node
+		set   []*model.Rule
+		want  string
+		why   string
+		other string // type of the second alternative (default "null")
 	}
 	var cases []cs
 	for _, f := range formats {
 		for _, banned := range []*model.Rule{model.RInt("minLength", 3), model.RInt("maxLength", 60), model.RStr("regex", ".")} {
 			cases = append(cases,
-				cs{model.Str(f.ex), []*model.Rule{model.RStr("type", f.typ), banned}, "reject", "format type with " + banned.Name + " inside an or rule-set"},
-				cs{model.Str(f.ex), []*model.Rule{banned, model.RStr("type", f.typ)}, "reject", "format type with " + banned.Name + " inside an or rule-set (other order)"})
+				cs{ex: model.Str(f.ex), set: []*model.Rule{model.RStr("type", f.typ), banned}, want: "reject", why: "format type with " + banned.Name + " inside an or rule-set"},
+				cs{ex: model.Str(f.ex), set: []*model.Rule{banned, model.RStr("type", f.typ)}, want: "reject", why: "format type with " + banned.Name + " inside an or rule-set (other order)"})
 		}
-		cases = append(cases, cs{model.Str(f.ex), []*model.Rule{model.RStr("type", f.typ)}, "accept", "format type alone inside an or rule-set"})
+		cases = append(cases, cs{ex: model.Str(f.ex), set: []*model.Rule{model.RStr("type", f.typ)}, want: "accept", why: "format type alone inside an or rule-set"})
 	}
 	cases = append(cases,
-		cs{model.Int("5"), []*model.Rule{model.RStr("type", "any"), model.RBool("const", true)}, "reject", "const next to any inside an or rule-set"},
-		cs{model.Int("5"), []*model.Rule{model.RStr("type", "any"), model.RNum("min", "1")}, "reject", "min next to any inside an or rule-set"},
-		cs{model.Int("5"), []*model.Rule{model.RStr("type", "any")}, "accept", "any alone inside an or rule-set"},
-		cs{model.Flt("1.5"), []*model.Rule{model.RStr("type", "decimal")}, "reject", "decimal without precision inside an or rule-set"},
-		cs{model.Flt("1.5"), []*model.Rule{model.RStr("type", "decimal"), model.RInt("precision", 2)}, "accept", "decimal with precision inside an or rule-set"},
-		cs{model.Int("5"), []*model.Rule{model.RNum("min", "1"), model.RBool("exclusiveMaximum", true)}, "reject", "exclusiveMaximum without max inside an or rule-set"},
-		cs{model.Str("abc"), []*model.Rule{model.RStr("type", "string"), model.RNum("min", "1")}, "reject", "min on a string inside an or rule-set"},
+		cs{ex: model.Int("5"), set: []*model.Rule{model.RStr("type", "any"), model.RBool("const", true)}, want: "reject", why: "const next to any inside an or rule-set"},
+		cs{ex: model.Int("5"), set: []*model.Rule{model.RStr("type", "any"), model.RNum("min", "1")}, want: "reject", why: "min next to any inside an or rule-set"},
+		cs{ex: model.Int("5"), set: []*model.Rule{model.RStr("type", "any")}, want: "accept", why: "any alone inside an or rule-set"},
+		cs{ex: model.Flt("1.5"), set: []*model.Rule{model.RStr("type", "decimal")}, want: "reject", why: "decimal without precision inside an or rule-set"},
+		cs{ex: model.Flt("1.5"), set: []*model.Rule{model.RStr("type", "decimal"), model.RInt("precision", 2)}, want: "accept", why: "decimal with precision inside an or rule-set"},
+		cs{ex: model.Int("5"), set: []*model.Rule{model.RNum("min", "1"), model.RBool("exclusiveMaximum", true)}, want: "reject", why: "exclusiveMaximum without max inside an or rule-set"},
+		cs{ex: model.Str("abc"), set: []*model.Rule{model.RStr("type", "string"), model.RNum("min", "1")}, want: "reject", why: "min on a string inside an or rule-set"},
 	)
+	// rules of the wrong kind in a rule-set that declares its type, while the EXAMPLE belongs to the
+	// other alternative (nothing but the rule-set itself is at fault); well-suited rule-sets as controls
+	wrong := []struct {
+		typ  string
+		rule *model.Rule
+	}{
+		{"string", model.RNum("min", "1")}, {"string", model.RNum("max", "9")}, {"string", model.RInt("minItems", 1)},
+		{"integer", model.RInt("minLength", 5)}, {"integer", model.RStr("regex", "a")}, {"integer", model.RInt("maxItems", 2)},
+		{"float", model.RInt("maxLength", 5)}, {"boolean", model.RInt("minLength", 1)}, {"boolean", model.RNum("min", "0")},
+		{"null", model.RNum("max", "1")}, {"array", model.RInt("minLength", 5)}, {"array", model.RNum("min", "1")},
+		{"object", model.RInt("minItems", 1)}, {"object", model.RStr("regex", "a")},
+	}
+	right := []struct {
+		typ  string
+		rule *model.Rule
+	}{
+		{"string", model.RInt("minLength", 1)}, {"string", model.RStr("regex", "a")}, {"integer", model.RNum("min", "1")},
+		{"float", model.RNum("max", "9.5")}, {"array", model.RInt("minItems", 1)}, {"boolean", model.RBool("nullable", true)},
+	}
+	exFor := func(declared string) (*model.Node, string) { // an example of ANOTHER kind than the declared one
+		if declared == "integer" || declared == "float" {
+			return model.Str("abc"), "string"
+		}
+		return model.Int("5"), "integer"
+	}
+	for _, w := range wrong {
+		ex, other := exFor(w.typ)
+		cases = append(cases,
+			cs{ex: ex, set: []*model.Rule{model.RStr("type", w.typ), w.rule}, want: "reject", why: w.rule.Name + " in a rule-set declaring " + w.typ + " (the example fits the other alternative)", other: other},
+			cs{ex: ex.Clone(), set: []*model.Rule{w.rule.Clone(), model.RStr("type", w.typ)}, want: "reject", why: w.rule.Name + " in a rule-set declaring " + w.typ + " (rule written first)", other: other})
+	}
+	for _, g := range right {
+		ex, other := exFor(g.typ)
+		cases = append(cases, cs{ex: ex, set: []*model.Rule{model.RStr("type", g.typ), g.rule}, want: "accept", why: g.rule.Name + " in a rule-set declaring " + g.typ, other: other})
+	}
 	for _, k := range cases {
 		for _, pos := range []model.Position{model.PosRoot, model.PosProperty, model.PosItem} {
 			for order := 0; order < 2; order++ {
 				n := k.ex.Clone()
-				items := []model.OrItem{model.OrSet(k.set...), model.OrSet(model.RStr("type", "null"))}
+				other := k.other
+				if other == "" {
+					other = "null"
+				}
+				items := []model.OrItem{model.OrSet(k.set...), model.OrSet(model.RStr("type", other))}
 				if order == 1 {
 					items[0], items[1] = items[1], items[0]
 				}
